@@ -590,6 +590,11 @@ func init() {
 				go func() { wg.Wait(); close(done) }()
 				select {
 				case <-done:
+					// when all goroutines are done the map is some insertion-ordered map again: as many keys iterated as Len says, each once, each present
+					if why := c19Consistent(m); why != "" {
+						fmt.Fprintf(os.Stderr, "@@INCONSISTENT {\"kind\": %q, \"round\": %d, \"goroutines\": %d, \"why\": %q}\n", kind, round, ng, why)
+						os.Exit(68)
+					}
 				case <-time.After(60 * time.Second):
 					// 300 calls per goroutine take milliseconds: the goroutines block each other for good
 					fmt.Fprintf(os.Stderr, "@@HANG {\"kind\": %q, \"round\": %d, \"goroutines\": %d, \"calls_done\": %d}\n", kind, round, ng, atomic.LoadInt64(&total))
@@ -597,7 +602,61 @@ func init() {
 				}
 			}
 		}
+		// bursts: goroutines released together set the same few NEW keys of a fresh map
+		for _, kind := range []string{"ASTNodes", "RuleASTNodes", "Constraints"} {
+			for round := 0; round < *rounds*25; round++ {
+				m := newMap(kind)
+				var wg sync.WaitGroup
+				start := make(chan struct{})
+				for g := 0; g < 8; g++ {
+					wg.Add(1)
+					go func(g int) {
+						defer wg.Done()
+						<-start
+						for _, k := range []string{"a", "b", "c"} {
+							_ = applyOp(m, omOp{"Set", k, "1"})
+							if g%3 == 0 {
+								_ = applyOp(m, omOp{"Delete", k, "0"})
+								_ = applyOp(m, omOp{"Set", k, "2"})
+							}
+							atomic.AddInt64(&total, 1)
+						}
+					}(g)
+				}
+				close(start)
+				wg.Wait()
+				if why := c19Consistent(m); why != "" {
+					fmt.Fprintf(os.Stderr, "@@INCONSISTENT {\"kind\": %q, \"round\": %d, \"goroutines\": 8, \"why\": %q}\n", kind, round, "burst of Set on new keys: "+why)
+					os.Exit(68)
+				}
+			}
+		}
 		fmt.Fprintf(os.Stderr, "@@SUMMARY {\"calls\": %d}\n", total)
 		return 0
 	})
+}
+
+// c19Consistent: the observable state of a quiescent map is that of an insertion-ordered map.
+func c19Consistent(m omap) string {
+	var keys []string
+	m.EachSafe(func(k string, _ int) { keys = append(keys, k) })
+	seen := map[string]bool{}
+	for _, k := range keys {
+		if seen[k] {
+			return fmt.Sprintf("key %q is iterated twice (order %v, Len %d)", k, keys, m.Len())
+		}
+		seen[k] = true
+		if !m.Has(k) {
+			return fmt.Sprintf("key %q is iterated but Has says no (order %v)", k, keys)
+		}
+	}
+	if m.Len() != len(keys) {
+		return fmt.Sprintf("Len %d but %d keys are iterated (%v)", m.Len(), len(keys), keys)
+	}
+	for _, k := range []string{"a", "b", "c"} {
+		if m.Has(k) && !seen[k] {
+			return fmt.Sprintf("Has(%q) but the key is never iterated (order %v)", k, keys)
+		}
+	}
+	return ""
 }
